@@ -6,8 +6,10 @@ CONSTANTS
   AtomCap = 8
   MaxAtomMC = 1
   MaxBody = 1
+  BackSteps = 2
   AtomicOrder = "arrival"
 VIEW MCView
 CONSTRAINT Bound
 INVARIANT Safety
 CHECK_DEADLOCK FALSE
+PROPERTY NeverEarly
